@@ -511,6 +511,12 @@ def render(prog, shapes_rec, excl, layer_info):
                 if ins[2] in excl:
                     return None      # an excluded layer invoked twice is not in the model
                 out.append('reuse %d %d %d %d %d %d %d' % (ins[1], ins[2], tgt[1], tgt[-1].out_channels, k, bias, osz))
+            elif tgt[0] == 'dw':
+                # the depthwise layer of node ins[2] (applied there to tgt[1]) applied again, to ins[1]
+                k, bias = layer_info[ins[2]]
+                if ins[2] in excl:
+                    return None
+                out.append('reusedw %d %d %d %d %d %d' % (ins[1], ins[2], tgt[1], k, bias, osz))
             elif tgt[0] in ('pad', 'bn'):
                 out.append('chan %d' % ins[1])       # the padding / (fused) BatchNorm of the block applied again
             else:
